@@ -558,6 +558,27 @@ func (c *Ctx) checkKeyMakers(prop string, min int) {
 				miss = append(miss, par.Name())
 			}
 		}
+		// ... and reaches them unchanged: a decoding / folding step between a parameter and the key bytes maps
+		// different parameter values to one key
+		lossy := ""
+		ana.Instrs(f, func(in ssa.Instruction) {
+			ret, ok := in.(*ssa.Return)
+			if !ok || in.Parent() != f || len(ret.Results) != 1 || lossy != "" {
+				return
+			}
+			lv := p.Leaves(ret.Results[0], ana.PVOpt{})
+			for _, op := range append(lv.OpList(), lv.List()...) {
+				for _, bad := range []string{"HexToHash", "HexToAddress", "Hex2Bytes", "FromHex", "BytesToAddress", "BytesToHash", "ToLower", "ToUpper", "TrimSpace", "TrimPrefix", "TrimLeft"} {
+					if strings.HasSuffix(op, bad) {
+						lossy = op
+					}
+				}
+			}
+		})
+		if lossy != "" && len(miss) == 0 && nret > 0 {
+			r.Bad(rule, n, p.Pos(f.Pos()), sprintf("the key built by %s passes a parameter through %s: parameter values that %s maps to one result (other spellings, non-hex text) share one store slot", n, lossy, lossy))
+			continue
+		}
 		r.Check(nret > 0 && len(miss) == 0, rule, n, p.Pos(f.Pos()), sprintf("all %d parameter(s) reach the key bytes", len(f.Params)),
 			sprintf("the key built by %s does not depend on its parameter(s) %s: entries that differ only there share one store slot and overwrite each other", n, strings.Join(miss, ", ")))
 	}
@@ -690,4 +711,44 @@ func (c *Ctx) checkValueSemantics(rule string) {
 		}
 	}
 	r.Ok(rule, "scan", "-", sprintf("%d struct variable(s) with field assignments inspected for lost updates and stale copies", n))
+}
+
+// checkChainScoped: a function that is handed a chain id and reads or writes the store under a key built in
+// place uses that chain id in the key (per-chain state must not be shared between chains).  keep selects the
+// prefixes the calling property owns.
+func (c *Ctx) checkChainScoped(rule string, keep func(prefix string) bool) {
+	p, r := c.P, c.R
+	n := 0
+	for _, f := range sortedFuncs(c.LiveReach()) {
+		if p.L.IsGenerated(f.Pos()) || !p.IsModule(f) {
+			continue
+		}
+		hasChain := false
+		for _, par := range ana.Outermost(f).Params {
+			if nm := ana.NamedOf(par.Type()); nm != nil && nm.Obj().Name() == "ChainID" {
+				hasChain = true
+			}
+		}
+		if !hasChain {
+			continue
+		}
+		for _, op := range p.StoreOps(f) {
+			pn := c.prefixName(op)
+			if pn == "" || !keep(pn) {
+				continue
+			}
+			scoped := false
+			for _, pt := range op.Key.Parts {
+				if pt.Kind == "chain" || pt.Kind == "param" || pt.Kind == "unknown" {
+					scoped = true
+				}
+			}
+			n++
+			r.Check(scoped, rule, "chain-scoped:"+pn+":"+fname(f), c.pos(op.Site), pn+" key carries the chain id the function was given",
+				fname(f)+" is given a chain id but accesses "+pn+" under a key without it: the value is shared by all chains")
+		}
+	}
+	if n == 0 {
+		r.Undecided(rule, "chain-scoped", "-", "no per-chain store access found")
+	}
 }
